@@ -87,7 +87,9 @@ PROPS = {
         "drivers": [drv("modpow", "debug"), drv("modpow", "release", tiers=T)],
     },
     "C08": {
-        "mc": L0_QUICK + L0_THOROUGH + [mc("mc", "FloatsMC.tla", "FloatsMC.cfg", workers=2)],
+        "mc": L0_QUICK + L0_THOROUGH + [mc("mc", "FloatsMC.tla", "FloatsMC.cfg", workers=2),
+               algo("FloatPath.tla", "FloatPath_q.cfg"), algo("FloatPath.tla", "FloatPath_cal1.cfg", expect="violation"),
+               algo("FloatPath.tla", "FloatPath_t.cfg", workers=14, tiers=T)],
         "drivers": [drv("conv", "debug"), drv("conv", "release", tiers=T)],
     },
     "C11": {
